@@ -55,6 +55,17 @@ var theEnv *wenv
 
 func getEnv() *wenv {
 	if theEnv != nil {
+		// the post-response work of the previous history's last requests must not write into the next history's store:
+		// wait until the store has seen no command and no goroutine has come or gone for a while
+		lastG, lastC, since := runtime.NumGoroutine(), theEnv.fm.CmdCount(), time.Now()
+		for deadline := time.Now().Add(2 * time.Second); time.Now().Before(deadline); {
+			time.Sleep(200 * time.Microsecond)
+			if g, c := runtime.NumGoroutine(), theEnv.fm.CmdCount(); g != lastG || c != lastC {
+				lastG, lastC, since = g, c, time.Now()
+			} else if time.Since(since) > 15*time.Millisecond {
+				break
+			}
+		}
 		theEnv.fm.Reset()
 		theEnv.mq.Reset()
 		return theEnv
@@ -519,7 +530,7 @@ func (w *wworld) checkSnapshots() {
 			w.realVer[k] = ver
 			di, ok := byKey[fmt.Sprintf("%d|%s", colNum[col], key)]
 			if !ok {
-				w.c.Violate("C11", "user-document-without-datatype", fmt.Sprintf("collection %s holds a document %q that names no datatype", col, key), w.desc)
+				w.c.Violate("C11", "user-document-without-datatype", fmt.Sprintf("collection %s (number %d) holds a document %q that names no datatype; datatypes: %v", col, colNum[col], key, dump["-_-Datatypes"]), w.desc)
 				continue
 			}
 			want, ok := w.replayTo(di.duid, di.key, di.kind, ver)
@@ -537,6 +548,94 @@ func (w *wworld) checkSnapshots() {
 			}
 			w.c.Count("user-document-compared")
 		}
+	}
+}
+
+// restPatch calls the REST patch endpoint for a key of a Document world (an existing datatype or a new key): the answer
+// must be the target, the stored log must stay well-formed, and the clients converge to it later (quiescence oracle)
+func (w *wworld) restPatch() {
+	col := w.cols[w.c.Rng.Intn(len(w.cols))]
+	key := []string{"k", "j", "restonly"}[w.c.Rng.Intn(3)]
+	colDoc, _ := w.e.mgr.Mongo.GetCollection(w.e.ctx, col)
+	if colDoc == nil {
+		return
+	}
+	cur := interface{}(map[string]interface{}{})
+	if ddoc, _ := w.e.mgr.Mongo.GetDatatypeByKey(w.e.ctx, colDoc.Num, key); ddoc != nil {
+		if ddoc.Type != "DOCUMENT" {
+			return
+		}
+		sd, _, err := snapshot.NewManager(w.e.ctx, w.e.mgr, ddoc, colDoc).GetLatestDatatype()
+		if err != nil {
+			return
+		}
+		cur = plainCopy(sd.GetSnapshot().ToJSON())
+	}
+	dw := &dworld{c: w.c}
+	target := dw.mutate(plainCopy(cur), 0)
+	if _, ok := target.(map[string]interface{}); !ok {
+		return
+	}
+	tj := jsonStr(target)
+	before := w.dbDigest()
+	base := runtime.NumGoroutine()
+	type out struct {
+		resp *model.PatchMessage
+		err  error
+	}
+	ch := make(chan out, 1)
+	go func() {
+		ctx, cancel := gocontext.WithCancel(gocontext.Background())
+		r, err := w.e.svc.PatchDocument(ctx, &model.PatchMessage{Collection: col, Key: key, Json: tj})
+		cancel()
+		ch <- out{r, err}
+	}()
+	var o out
+	select {
+	case o = <-ch:
+	case <-time.After(8 * time.Second):
+		w.c.Violate("C19", "rest-patch-not-answered", fmt.Sprintf("PatchDocument(%s/%s) was not answered within 8s", col, key), w.desc)
+		panic("request not answered")
+	}
+	w.settle(base)
+	w.desc = append(w.desc, fmt.Sprintf("REST patch of %s/%s from %s to %s", col, key, jsonStr(cur), tj))
+	if o.err != nil {
+		w.c.Violate("C19", "rest-patch-failed", fmt.Sprintf("PatchDocument(%s/%s) from %s to %s failed: %v", col, key, jsonStr(cur), tj, o.err), w.desc)
+		panic("rest patch failed")
+	}
+	var got interface{}
+	_ = json.Unmarshal([]byte(o.resp.Json), &got)
+	if !reflect.DeepEqual(got, plainCopy(target)) {
+		w.c.Violate("C19", "rest-patch-misses-target", fmt.Sprintf("PatchDocument(%s/%s) from %s to %s answers %s", col, key, jsonStr(cur), tj, o.resp.Json), w.desc)
+	}
+	after := w.dbDigest()
+	w.checkLog(after)
+	w.checkSnapshots()
+	// the stored copy reads the target now
+	if ddoc, _ := w.e.mgr.Mongo.GetDatatypeByKey(w.e.ctx, colDoc.Num, key); ddoc != nil {
+		if sd, _, err := snapshot.NewManager(w.e.ctx, w.e.mgr, ddoc, colDoc).GetLatestDatatype(); err == nil {
+			if v := plainCopy(sd.GetSnapshot().ToJSON()); !reflect.DeepEqual(v, plainCopy(target)) {
+				w.c.Violate("C19", "rest-patch-not-stored", fmt.Sprintf("after PatchDocument(%s/%s) to %s the stored log rebuilds to %s", col, key, tj, jsonStr(v)), w.desc)
+			}
+		}
+	} else if !reflect.DeepEqual(plainCopy(target), plainCopy(cur)) {
+		w.c.Violate("C19", "rest-patch-not-stored", fmt.Sprintf("PatchDocument(%s/%s) to %s created no datatype", col, key, tj), w.desc)
+	}
+	// the model takes the new operation documents over as observed
+	var newops []string
+	for _, o := range after.ops[len(before.ops):] {
+		du := bget(o, "duid").(string)
+		sq := bnum(bget(o, "sseq"))
+		ops, sseqs, _ := w.e.mgr.Mongo.GetOperations(w.e.ctx, du, sq, constants.InfinitySseq)
+		if len(ops) == 0 || sseqs[0] != sq {
+			panic("stored operation not readable")
+		}
+		newops = append(newops, fmt.Sprintf("(mkOdoc %s %s %s %s)", gStr(du), gN(bnum(bget(o, "colNum"))), gN(sq), gOp(ops[0])))
+	}
+	w.evs = append(w.evs, fmt.Sprintf("WRest %s %s", gList(newops), after.gal))
+	w.c.Count("ev-rest-patch")
+	if len(newops) > 0 {
+		w.c.Count("rest-patch-stored-operations")
 	}
 }
 
@@ -1482,6 +1581,9 @@ func sliceWire(c *Ctx, kind string) {
 					continue
 				}
 				switch k := c.Rng.Intn(100); {
+				case k < 5 && kind == "doc":
+					w.cur = "rest-patch"
+					w.restPatch()
 				case k < 3 && kind == "list":
 					w.cur = "retouch"
 					w.retouch(x)
